@@ -259,6 +259,9 @@ var alphabet = []string{
 	"+", "-", "*", "/", "%", "=", "==", "!=", "<", "<=", ">", ">=", "!", "&&", "||", "&", "|", "+=", "-=", "*=", "/=", "%=",
 	"(", ")", "[", "]", "{", "}", ",", ":", ";", ".", ".[", "\n", "\r\n", "\r", " ", "\t", "#", "#c\n", "# c",
 	"\x00", "\xff", "\xc3", "é", "\u00e9x", "\U0001F44D", "\ufffd", "@", "$", "~", "^", "?", "\\",
+	// names made of bytes that are not the start of a character, long names, line-separator characters that are not line ends
+	"\x80\x80\x80\x80\x80\x80\x80\x80\x80\x80\x80", "\xbf\xbf\xbf\xbf\xbf\xbf\xbf\xbf\xbf\xbf\xbf\xbfz", "a\x80\x81\x82\x83\x84\x85\x86\x87\x88\x89\x8a\x8b", "ééééééé", "a_very_long_identifier_name_1234567890", "\U0001F600\U0001F600\U0001F600\U0001F600",
+	"\u2028", "\u2029", "\u0085", "\u00a0", "\"a\u2028b\"", "'''x\u2029y'''", "# c\u2028d\n", "n\u2028m", "\ufeff", "\v", "\f",
 }
 
 func genTokens(t *rapid.T) string {
